@@ -58,6 +58,35 @@ spec fn packed_ans(s: Searcher, hay: Seq<u8>, span: Span) -> Option<Match> {
 }
 
 impl Searcher {
+// R-mono: `find<B: AsRef<[u8]>>(&self, haystack: B)` at B = &[u8] (`as_ref` is the identity)
+//@@ fn src/packed/api.rs | pub fn find<B: AsRef<[u8]>>(&self, haystack: B) -> Option<Match> | res=r
+//@@ sigsub 1 /pub fn find<B: AsRef<\[u8\]>>\(&self, haystack: B\)/ => fn find(&self, haystack: &[u8])
+//@@ sub 1 /let haystack = haystack\.as_ref\(\);/ =>
+//@@ header
+        ensures
+            // the whole haystack is the span
+            r == packed_ans(*self, haystack@, Span { start: 0, end: haystack@.len() as usize }),
+            r is Some ==> r->Some_0.span.start <= r->Some_0.span.end <= haystack@.len(),
+//@@ end
+
+// R-mono: `find_iter<'a, 'b, B: ?Sized + AsRef<[u8]>>(&'a self, haystack: &'b B)` at B = [u8]
+//@@ fn src/packed/api.rs | pub fn find_iter<'a, 'b, B: ?Sized + AsRef<[u8]>>( | res=r
+//@@ sigsub 1 /pub fn find_iter<'a, 'b, B: \?Sized \+ AsRef<\[u8\]>>\(/ => fn find_iter<'a, 'b>(
+//@@ sigsub 1 /haystack: &'b B,/ => haystack: &'b [u8],
+//@@ sub 1 /let haystack = haystack\.as_ref\(\);/ =>
+//@@ header
+        ensures
+            // the iterator starts on the whole haystack with this searcher (then `next` above)
+            r.searcher == self, r.haystack == haystack,
+            r.span == (Span { start: 0, end: haystack@.len() as usize }),
+//@@ end
+
+//@@ fn src/packed/api.rs | pub fn minimum_len(&self) -> usize | within=impl Searcher | res=r
+//@@ sigsub 1 /pub fn/ => fn
+//@@ header
+        ensures r == self.minimum_len
+//@@ end
+
 // R-mono: `find_in<B: AsRef<[u8]>>(&self, haystack: B, ..)` at B = &[u8] (`as_ref` is the identity);
 // R-idx: `haystack[span]` -> `haystack[span.start..span.end]` (body of `Index<Span> for [u8]`)
 //@@ fn src/packed/api.rs | pub fn find_in<B: AsRef<[u8]>>( | res=r
